@@ -59,6 +59,10 @@ class Session:
         self.seen_packets_server = []
         self.seen_packets_client = []
 
+        # next expected TCP sequence number per direction (None until the first segment of that direction is seen)
+        self.next_seq_server = None
+        self.next_seq_client = None
+
         self.can_decrypt = False
         self.client_hello_seen = False
 
@@ -481,6 +485,18 @@ class Session:
     def get_tls_records(self):
         """Extracts packets from session which together contain complete TLS_Records"""
         packet: Packet
+        # every packet of the session is known here: a direction's stream starts at its lowest sequence number (relative to
+        # the first captured segment, modulo 2^32), also when that segment was captured after later ones
+        for from_server in (True, False):
+            seqs = [p.seq for p in self.packet_buffer
+                    if (p.ip_src == self.server_ip and p.sport == self.server_port) == from_server]
+            if seqs:
+                start = min(seqs, key=lambda q: (q - seqs[0] + 0x80000000) & 0xFFFFFFFF)
+                if from_server and self.next_seq_server is None:
+                    self.next_seq_server = start
+                elif not from_server and self.next_seq_client is None:
+                    self.next_seq_client = start
+
         for packet in self.packet_buffer:
             if packet.ip_src == self.server_ip and packet.sport == self.server_port:
                 self.server_packet_buffer.append(packet)
@@ -502,10 +518,18 @@ class Session:
     def extract_server_buf(self):
         """Extracts packets from session which together contain complete TLS_Records"""
         self.server_counter += 1
-        self.server_packet_buffer.sort(key=lambda x: x.seq)
+        # order by distance from the next expected sequence number (modulo 2^32, so a wrapping sequence space is handled)
+        if self.next_seq_server is None:
+            self.next_seq_server = self.server_packet_buffer[0].seq
+        base = self.next_seq_server
+        self.server_packet_buffer.sort(key=lambda x: ((x.seq - base + 0x80000000) & 0xFFFFFFFF) - 0x80000000)
+
+        if self.server_packet_buffer[0].seq != self.next_seq_server:
+            # an earlier segment is still missing (captured out of order, or lost)
+            return
 
         for i in range(0, len(self.server_packet_buffer) - 1):
-            if self.server_packet_buffer[i].seq + len(self.server_packet_buffer[i].tls_data) != \
+            if (self.server_packet_buffer[i].seq + len(self.server_packet_buffer[i].tls_data)) & 0xFFFFFFFF != \
                     self.server_packet_buffer[i + 1].seq:
                 # need more packets (missing packets)
                 return
@@ -550,15 +574,24 @@ class Session:
                 self.server_tls_records.append(tls_record)
 
                 index += record_len
+            self.next_seq_server = (self.server_packet_buffer[-1].seq + len(self.server_packet_buffer[-1].tls_data)) & 0xFFFFFFFF
             self.server_packet_buffer.clear()
 
     def extract_client_buf(self):
         """Extracts packets from session which together contain complete TLS_Records"""
         self.client_counter += 1
-        self.client_packet_buffer.sort(key=lambda x: x.seq)
+        # order by distance from the next expected sequence number (modulo 2^32, so a wrapping sequence space is handled)
+        if self.next_seq_client is None:
+            self.next_seq_client = self.client_packet_buffer[0].seq
+        base = self.next_seq_client
+        self.client_packet_buffer.sort(key=lambda x: ((x.seq - base + 0x80000000) & 0xFFFFFFFF) - 0x80000000)
+
+        if self.client_packet_buffer[0].seq != self.next_seq_client:
+            # an earlier segment is still missing (captured out of order, or lost)
+            return
 
         for i in range(0, len(self.client_packet_buffer) - 1):
-            if self.client_packet_buffer[i].seq + len(self.client_packet_buffer[i].tls_data) != \
+            if (self.client_packet_buffer[i].seq + len(self.client_packet_buffer[i].tls_data)) & 0xFFFFFFFF != \
                     self.client_packet_buffer[i + 1].seq:
                 # need more packets (missing packets)
                 return
@@ -603,4 +636,5 @@ class Session:
                 self.client_tls_records.append(tls_record)
 
                 index += record_len
+            self.next_seq_client = (self.client_packet_buffer[-1].seq + len(self.client_packet_buffer[-1].tls_data)) & 0xFFFFFFFF
             self.client_packet_buffer.clear()
